@@ -175,14 +175,16 @@ let histories (c : cfg) : (int list * string) list =
       ([2], "R,V,D2,K,V");               (* delete racing with the lookups *)
       ([], "R,A2,V,K,V");                (* add racing with the lookups *)
       ([2], "R,V,A1,D2,K,V,D1,K,V");     (* edits while stopped at a breakpoint *)
-      ([1], "L,D0,R,V,K,V,K,V") ]        (* add-all before the run: digit stays, alpha removed again *)
+      ([1], "L,D0,R,V,K,V,K,V");         (* add-all before the run: digit stays, alpha removed again *)
+      ([2], "R,K,V,V,K,V") ]             (* continue issued before the pending event is received: nothing may be lost *)
   else if c.id = "builtin" then  (* ANY0 ASCII_DIGIT1 EOI2 NEWLINE3 SOI4 line5 other6 word7 *)
     [ ([2;7], "R,V,K,V,K,V,K,V");        (* word and EOI: word@0 word@2 EOI@4 Eof *)
       ([0;3;4], "R,V,K,V,K,V,K,V");      (* built-ins alone: SOI@0 ANY@2 NEWLINE@3 Eof *)
       ([1], "R,V,K,V,K,R,V");            (* ASCII_DIGIT (three visits), then a re-run *)
       ([2], "R,V,A0,K,V");               (* EOI, ANY added while running *)
       ([1], "L,R,V,K,V,K,V,K,V,K,V");    (* ASCII_DIGIT set before add-all: the built-in breakpoint must survive it *)
-      ([], "A0,L,D5,R,V,K,V,K,V,K,V") ]  (* ANY, then add-all, line removed *)
+      ([], "A0,L,D5,R,V,K,V,K,V,K,V");   (* ANY, then add-all, line removed *)
+      ([1], "R,K,V,V,K,V,K,V") ]         (* continue before the receive, three visits of ASCII_DIGIT *)
   else
     [ ([0;1;2;3;4], "R,V,K,R,V");
       ([0;1], "R,V,K,V,K,V,K");
@@ -216,24 +218,37 @@ let spec_oracle (c : cfg) (bps : int list) (cmds : string) (impl : string) (mode
       if List.mem (int_of_n r) bps then Some (Printf.sprintf "B%d@%d" (int_of_n r) (int_of_n p)) else None) c.entries
     @ [ (match c.outc with M.OEof -> "EOF" | M.OErr _ -> "ERR") ] in
   let err = ref None and obs = ref obs and idx = ref 0 and conts = ref 0 and nrecv = ref 0 and started = ref false in
+  let got_outcome = ref false and killed = ref false in
+  (* run() = PreviousRunPanic leaves the old receiver in place; a run() that succeeds prints nothing, so with several runs in a row
+     the observation list does not say which of them it was: the disconnect rule is then not applied at all *)
+  let panic_somewhere = List.mem "run=panic" !obs in
+  (* every continue so far answered a received breakpoint event (two unparks before the next park are one token: only then is
+     "a continue resumes the parse" owed) *)
+  let disciplined = ref true and nbp = ref 0 in
   let fail m = if !err = None then err := Some m in
   List.iter (fun cmd ->
       if !err = None then
       match cmd.[0], !obs with
-      | 'R', "run=panic" :: rest -> obs := rest
-      | 'R', _ -> started := true; idx := 0; conts := 0; nrecv := 0
-      | 'K', o :: rest -> obs := rest; if o = "cont=ok" then incr conts
+      | 'R', "run=panic" :: rest -> obs := rest; killed := true   (* the previous session was terminated, no new one started *)
+      | 'R', _ -> started := true; idx := 0; conts := 0; nrecv := 0; got_outcome := false; killed := false; nbp := 0; disciplined := true
+      | 'K', o :: rest -> obs := rest; if o = "cont=ok" then begin (if !conts >= !nbp then disciplined := false); incr conts end
       | 'V', o :: rest ->
         obs := rest;
         let v = String.sub o 5 (String.length o - 5) in
         if v = "ABORT" then fail "the error of an aborted parse was received"
         else if v = "TIMEOUT" then begin
-          if static && !started && !nrecv <= !conts && !idx < List.length expected then
+          if static && !started && !disciplined && !nrecv <= !conts && !idx < List.length expected then
             fail "recv() got nothing although the debugger was not waiting for a continue and the parse has more to report"
         end
-        else if v = "disc" || v = "norx" then ()
+        else if v = "disc" then begin
+          (* the session's channel closed: legitimate only after the outcome was delivered or after a re-run terminated the session *)
+          if static && !started && not !got_outcome && not !killed && not panic_somewhere then
+            fail "the session ended without delivering the outcome of the parse (channel disconnected before end-of-input / error was received)"
+        end
+        else if v = "norx" then ()
         else begin
           incr nrecv;
+          if v = "EOF" || v = "ERR" then got_outcome := true else incr nbp;
           if static && !started then begin
             (match List.nth_opt expected !idx with
              | Some e when e = v -> ()
@@ -414,7 +429,23 @@ let () =
     | "CFG" :: _ -> let c = parse_cfg f in cfgs := !cfgs @ [c];
       Hashtbl.replace names c.id (List.length (String.split_on_char ',' (List.nth f 4))); true
     | _ -> false in
-  if mode = "gencli" then begin
+  if mode = "genfree" then begin
+    let nrandom = int_of_string Sys.argv.(2) in
+    rng := Int64.of_string Sys.argv.(3);
+    read_lines (fun line -> if header (split_tab line) then print_endline line);
+    let n = List.length !cfgs in
+    if n > 0 then for i = 1 to nrandom do
+        let c = List.nth !cfgs (i mod n) in
+        let nn = Hashtbl.find names c.id in
+        let bps = List.filter (fun _ -> below 2 = 0) (List.init nn (fun i -> i)) in
+        let len = 3 + below 8 in
+        (* one run, then continues / receives / pauses in any order (continue before the pending event is received included),
+           and enough receives at the end to see the rest; no re-run, so nothing here can block for good *)
+        let body = List.init len (fun _ -> match below 8 with 0 | 1 | 2 -> "K" | 3 | 4 | 5 -> "V" | _ -> "S") in
+        let cmds = ["R"] @ body @ ["S"; "V"; "V"] in
+        Printf.printf "%s\t%d\t%s\t%s\n" c.id (if below 5 = 0 then 2 else 1) (String.concat "," (List.map string_of_int bps)) (String.concat "," cmds)
+      done
+  end else if mode = "gencli" then begin
     let nrandom = int_of_string Sys.argv.(2) in
     rng := Int64.of_string Sys.argv.(3);
     read_lines (fun line -> if header (split_tab line) then print_endline line);
@@ -459,6 +490,17 @@ let () =
         let f = split_tab line in
         if header f then () else
         match f with
+        | [id; cap; bps; cmds; "FREE"; impl] ->
+          (* natural timing: only the specification is consulted (the schedule is whatever the OS did) *)
+          incr n; incr nontrivial;
+          let c = List.find (fun c -> c.id = id) !cfgs in
+          let case = String.concat "\t" [id; cap; bps; cmds; "FREE"] in
+          (match spec_oracle c (ints bps) cmds impl "" with
+           | Some m -> report "spec" case impl m
+           | None ->
+             (match List.rev (String.split_on_char '|' impl) with
+              | "STUCK" :: _ -> report "spec" case impl "the controller's commands (no re-run among them) all return"
+              | _ -> ()))
         | [id; cap; bps; cmds; sched; impl] ->
           incr n;
           let c = List.find (fun c -> c.id = id) !cfgs in
